@@ -18,7 +18,10 @@ cd "$wt" && git checkout -q -- . && git clean -fdq
 echo "--- checks against /repo with the change"
 trap 'git -C /repo checkout -q -- . ; git -C /repo clean -fdq' EXIT
 git -C /repo apply "$sd/patch.diff" || exit 1
+# evidence/ must keep describing the unchanged tree: runs against a changed tree do not overwrite it
+rm -rf /verif/work/evidence.bak && cp -r /verif/evidence /verif/work/evidence.bak
 for p in "$@"; do
   out=$(cd /verif && ./check $p 2>&1)
   echo "$p: $(echo "$out" | grep -c '^VIOLATION') VIOLATION line(s) | $(echo "$out" | grep '^VIOLATION' | head -1) | $(echo "$out" | tail -1 | cut -c1-200)"
 done
+rm -rf /verif/evidence && mv /verif/work/evidence.bak /verif/evidence
